@@ -12,6 +12,61 @@ import (
 func init() {
 	scenarios["trap.staledelete"] = scTrapStaleDelete
 	scenarios["trap.closerace"] = scTrapCloseRace
+	scenarios["trap.chanclose"] = scTrapChanClose
+}
+
+// trap.chanclose (WsRpc: ExLookup of a "cls" frame followed by MainCloseChans): the executor is closing a subscription's sink
+// for the server's close notification when the connection drops and the main loop sweeps the channel handlers. The handler
+// entry must be gone before the sink is touched, or the sweep closes the same sink a second time.
+func scTrapChanClose(w *World, a Args, rng *rand.Rand) error {
+	c, err := w.NewClient(ClientOpts{Name: "A", NoPing: true, BackoffMin: 2 * time.Millisecond, BackoffMax: 5 * time.Millisecond})
+	if err != nil {
+		return err
+	}
+	w.Plan(3, &Plan{NoClose: true, NoCloseMs: 4000})
+	d := make(chan struct{})
+	go func() {
+		ch, out := c.Subscribe(context.Background(), 3, 2, "")
+		if out == "ok" && ch != nil {
+			w.Consume(3, ch, nil, d)
+		} else {
+			close(d)
+		}
+	}()
+	// both values delivered, the stream is idle and open
+	dl := time.Now().Add(2 * time.Second)
+	for time.Now().Before(dl) {
+		n := 0
+		for _, e := range w.Rec.Events() {
+			if e["ev"] == "ChanRecv" {
+				n++
+			}
+		}
+		if n >= 2 {
+			break
+		}
+		time.Sleep(time.Millisecond)
+	}
+	w.Rec.Gate("sink.close")
+	sweep := w.Rec.Watch("closechans.pre@client")
+	w.Release(3) // the handler closes its channel: the close notification reaches the client's executor
+	if w.Rec.WaitParked("sink.close", 2*time.Second) {
+		w.Rec.Emit("WireFault", "conn", 1, "fault", "kill/fin", "dir", "both", "frame", 0)
+		w.Proxy.Last().Kill("fin")
+		waitCh(sweep, 2*time.Second) // the main loop is about to sweep the channel handlers
+		time.Sleep(5 * time.Millisecond)
+	}
+	w.Rec.OpenAll()
+	waitCh(d, patience(2*time.Second))
+	dl = time.Now().Add(patience(3 * time.Second))
+	for tok := 6; tok < 6+40*10 && time.Now().Before(dl); tok += 10 {
+		if out := c.CallT("unary", tok, patience(2*time.Second)); out == "ok" || out == "pending" {
+			break
+		}
+		time.Sleep(3 * time.Millisecond)
+	}
+	w.Quiesce(c, 1000, 2*time.Second)
+	return nil
 }
 
 func waitCh(c <-chan struct{}, d time.Duration) bool {
@@ -51,8 +106,8 @@ func scTrapStaleDelete(w *World, a Args, rng *rand.Rand) error {
 		w.Quiesce(c, 1000, time.Second)
 		return nil
 	}
-	w.Proxy.Last().Kill("fin")
 	w.Rec.Emit("WireFault", "conn", 1, "fault", "kill/fin", "dir", "both", "frame", 0)
+	w.Proxy.Last().Kill("fin")
 	waitCh(cif, 2*time.Second) // closeInFlight has failed the call: the caller will retry
 	w.Rec.Gate("resp.deliver@client")
 	w.Rec.Open("resp.deliver.pre@client")
